@@ -807,6 +807,19 @@ def call_builtin(self, st, name, args, kwargs, node):
         if name in ("chr", "unichr") and isinstance(a0, int) and not isinstance(a0, bool) and 0 <= a0 <= 0x10FFFF:
             return [(st, "val", chr(a0))]
         return [(st, "val", Top(name + "()", isinstance(a0, Top) and a0.input))]
+    if name == "id" and len(args) == 1 and isinstance(args[0], Ref):
+        return [(st, "val", ("@id", args[0].oid))]          # unique per object, equal only to itself
+    if name == "hash" and len(args) == 1 and not kwargs:
+        a0 = args[0]
+        if isinstance(a0, Ref):
+            h = x_hash_of(self, st, a0)
+            return [(st, "val", ("@hash", h) if h is not None else ("@id", a0.oid))]
+        try:
+            k0 = vkey(a0)
+            if "Top" not in repr(type(a0)) and not _has_top(a0):
+                return [(st, "val", ("@hash", k0))]
+        except Exception:       # noqa
+            pass
     if name in ("str", "repr", "int", "float", "id", "hash", "abs", "round", "min", "max", "sum", "vars"):
         if name in ("max", "min") and args and getattr(self, "int_sat", 2) > 2 and not kwargs:
             vals = None
@@ -943,10 +956,47 @@ def call_builtin(self, st, name, args, kwargs, node):
     raise U("builtin %s at %s" % (name, self.loc(node)))
 
 
+def _has_top(v):
+    if isinstance(v, Top):
+        return True
+    if isinstance(v, (tuple, list, set, frozenset)):
+        return any(_has_top(x) for x in v)
+    return False
+
+
+def x_hash_of(self, st, v):
+    """hash() of a heap object whose class defines __hash__ in the repository: the value it returns (id(self) is a
+    token unique to the object); None when the object hashes by identity / the method cannot be evaluated to one value."""
+    if not isinstance(v, Ref):
+        return None
+    o = st.obj(v)
+    if not isinstance(o.cls, ClassInfo):
+        return None
+    m = o.cls.lookup("__hash__")
+    if m is None:
+        return None
+    probe = st.fork()
+    try:
+        outs = self.call_function(probe, m, [], {}, None, self_val=v)
+    except AnalysisError:
+        return None
+    if len(outs) != 1 or outs[0][1] != "val" or isinstance(outs[0][2], Top):
+        return None
+    return vkey(outs[0][2])
+
+
 def _same_member(self, st, x, y):
-    """set membership: hash first - heap objects hash by identity here"""
+    """set / dict-key membership: same hash AND equal.  Heap objects hash by identity unless their class defines
+    __hash__ in the repository - then that method and the class's __eq__ decide, as in Python."""
     if isinstance(x, Ref) or isinstance(y, Ref):
-        return isinstance(x, Ref) and isinstance(y, Ref) and x.oid == y.oid
+        if not (isinstance(x, Ref) and isinstance(y, Ref)):
+            return False
+        if x.oid == y.oid:
+            return True
+        hx, hy = x_hash_of(self, st, x), x_hash_of(self, st, y)
+        if hx is None or hy is None or hx != hy:
+            return False
+        return self.x_eq(st, x, y) is True
     return self.x_eq(st, x, y) is True
 
 
